@@ -202,3 +202,61 @@ def chord_bound(ctx):
     edge = factory.create(Vertex(p1, 0), Vertex(p2, 1), data)
     chord = np.linalg.norm(p1 - p2)
     ctx.prove("length-at-least-chord", edge.length >= chord * (1 - 1e-9), length=edge.length, chord=chord)
+
+
+# ------------------------------------------------------------------------------------------------
+# arc_length_3point on the canonical circle (centre 0, plane z = 0, start on the x axis; free radius and free
+# angles): P.  The companion obligation "the function is invariant under the generators of the rigid motions"
+# (three free points, 2 x 2 decisions whose agreement needs degree-4 identities in 12 variables inside the
+# path pruning) did not close within 600 s per generator and was removed again: circles in general position
+# stay with the bounded proof above (DESIGN 9).
+@proof("C08", "arc_length_3point/canonical-circle/radius-times-angle", cases=list(THREE), functions=[FN + "arc_length_3point"],
+       samples=25, timeout=60,
+       note="circle about the origin in the plane z = 0, start point on the x axis, free radius; given and end point at angles "
+            "0 < beta < alpha < 2pi: length = R*alpha")
+def arc_length_canonical(ctx):
+    R = ctx.real("R", lo=0.02, hi=30)
+    (lo, hi), bmode = THREE[ctx.case]
+    alpha = ctx.real("alpha", lo=lo, hi=hi)
+    beta = ctx.real("beta", lo=0.02, hi=2 * math.pi)
+    ctx.assume(beta < alpha - 0.02)
+    if bmode == "beta<pi":
+        ctx.assume(beta < math.pi - 0.02)
+    elif bmode == "beta>pi":
+        ctx.assume(beta > math.pi + 0.02)
+    ca, sa = cs(ctx, alpha)
+    cb, sb = cs(ctx, beta)
+    zero = R * 0
+    ps, pb, pe = np.array([R, zero, zero]), np.array([R * cb, R * sb, zero]), np.array([R * ca, R * sa, zero])
+    if not ctx.symbolic:
+        ps, pb, pe = ps.astype(float), pb.astype(float), pe.astype(float)
+    length, exc = ctx.call(f.arc_length_3point, ps, pb, pe)
+    if exc is not None:
+        # the collinearity guard |a x b|^2 < 1e-18 fired: a precondition of the law (the guard is a float-noise
+        # threshold, not part of the property); natively, on the sampled domain, it must never fire
+        if not ctx.symbolic:
+            ctx.prove("not-rejected-on-the-sampled-domain", False)
+        elif not isinstance(exc, ValueError):
+            ctx.prove("only-the-collinearity-guard-may-reject", False)
+        return
+    for k, x in enumerate(ctx.atom_args(length, "arccos")):
+        ctx.lemma(f"lemma/cosine-of-the-included-angle-{k}", ctx.eq(x, ca))
+    for k, x in enumerate(ctx.atom_args(length, "sqrt")):
+        ctx.lemma(f"lemma/every-radius-vector-has-length-R-{k}", ctx.eq(x, R * R))
+    dec = ctx.decisions()
+    if dec:
+        ctx.lemma("lemma/side-test-is-R^4*sin(beta)*sin(alpha)", ctx.eq(dec[-1], R * R * R * R * sb * sa))
+        if ctx.symbolic:
+            # sign of the side test from the quadrants of alpha and beta (A4), in steps the solver closes one by one
+            ss = sb * sa
+            ctx.lemma("lemma/sign-of-sin(beta)*sin(alpha)", ss > 0 if bmode != "beta<pi" else ss < 0)
+            r4 = R * R * R * R
+            ctx.lemma("lemma/R^4-positive", r4 > 0)
+            ctx.lemma("lemma/sign-of-the-side-test", dec[-1] > 0 if bmode != "beta<pi" else dec[-1] < 0)
+    if ctx.symbolic:
+        for k, x in enumerate(ctx.atoms(length, "sqrt")):
+            ctx.lemma(f"lemma/norm-is-R-{k}", ctx.eq(x, R))
+        inc = alpha if bmode == "below" else 2 * math.pi - alpha
+        for k, x in enumerate(ctx.atoms(length, "arccos")):
+            ctx.lemma(f"lemma/arccos-returns-the-smaller-of-alpha-and-2pi-minus-alpha-{k}", ctx.eq(x, inc))
+    ctx.prove("length-is-radius-times-included-angle", ctx.eq(length, R * alpha, tol=1e-6))
